@@ -200,6 +200,7 @@ htp_status_t htp_gzip_decompressor_decompress(htp_decompressor_t *drec1, htp_tx_
     int rc = 0;
     htp_status_t callback_rc;
     htp_decompressor_gzip_t *drec = (htp_decompressor_gzip_t*) drec1;
+    htp_tx_data_t dhead;
 
     // Pass-through the NULL chunk, which indicates the end of the stream.
 
@@ -265,6 +266,26 @@ htp_status_t htp_gzip_decompressor_decompress(htp_decompressor_t *drec1, htp_tx_
         }
 
         return HTP_OK;
+    }
+
+    // Keep the compressed data until the first decompressed byte comes out. If it turns
+    // out not to be what was announced, decompression is tried again with other settings,
+    // or the data is passed through; either has to start at the beginning of the stream,
+    // which may have arrived in earlier calls.
+    if ((drec->zlib_initialized != 0) && (drec->zlib_initialized != HTP_COMPRESSION_LZMA) && (drec->head_len != (size_t) -1)) {
+        unsigned char *head = NULL;
+        if ((drec->stream.total_out == 0) && (drec->head_len + d->len <= GZIP_BUF_SIZE)) {
+            head = realloc(drec->head, drec->head_len + d->len);
+        }
+        if (head != NULL) {
+            memcpy(head + drec->head_len, d->data, d->len);
+            drec->head = head;
+            drec->head_len += d->len;
+        } else {
+            free(drec->head);
+            drec->head = NULL;
+            drec->head_len = (size_t) -1;
+        }
     }
 
 restart:
@@ -404,6 +425,14 @@ restart:
                 inflateEnd(&drec->stream);
             }
 
+            // Did the stream begin in earlier calls? Then start over from there.
+            if ((drec->head != NULL) && (drec->head_len > d->len)) {
+                dhead = *d;
+                dhead.data = drec->head;
+                dhead.len = drec->head_len;
+                d = &dhead;
+            }
+
             // see if we want to restart the decompressor
             if (htp_gzip_decompressor_restart(drec,
                                               d->data, d->len, &consumed) == 1)
@@ -452,6 +481,7 @@ void htp_gzip_decompressor_destroy(htp_decompressor_t *drec1) {
 
     htp_gzip_decompressor_end(drec);
 
+    free(drec->head);
     free(drec->buffer);
     free(drec);
 }
